@@ -936,8 +936,27 @@ def rule_DZ1(ctx, files=None):
                 continue
             nsite += 1
             bad = None
+            # tests made by enclosing conditional expressions (also inside a helper whose body was resolved in place,
+            # which has no position of its own in the caller's flow graph)
+            syntactic = set()
+            child = i
+            for a in f.ancestors(i):
+                an = f.nodes[a]
+                if an['k'] == 'ConditionalOperator' and len(an['ch']) == 3 and child in an['ch'][1:]:
+                    cmem, clocal = set(), False
+                    for j in f.walk(an['ch'][0]):
+                        jn = f.nodes[j]
+                        if jn['k'] == 'MemberExpr' and jn.get('thisbase'):
+                            cmem.add(jn.get('m'))
+                        elif jn['k'] == 'DeclRefExpr' and jn.get('rk') in ('local', 'param'):
+                            clocal = True
+                    if not clocal:
+                        syntactic |= cmem
+                child = a
             for m in sorted(ms):
                 family = DZ1_FLATTENING if m in DZ1_FLATTENING else {m}
+                if family & syntactic:
+                    continue
                 keys = ['this.%s' % x for x in family]
 
                 def tests(atom):
